@@ -65,21 +65,15 @@ IdxStep(i) == <<"i", "", i>>
 IsKey(s) == s[1] = "k"
 IsIdx(s) == s[1] = "i"
 
+\* all <<position, value at that position>> of a document
 RECURSIVE Positions(_)
 Positions(v) ==
-  {<<>>} \cup
+  {<<<<>>, v>>} \cup
   (IF IsObj(v)
-   THEN UNION {{<<KeyStep(v[2][i][1])>> \o q : q \in Positions(v[2][i][2])} : i \in 1..Len(v[2])}
+   THEN UNION {{<<<<KeyStep(v[2][i][1])>> \o q[1], q[2]>> : q \in Positions(v[2][i][2])} : i \in 1..Len(v[2])}
    ELSE IF IsArr(v)
-   THEN UNION {{<<IdxStep(i)>> \o q : q \in Positions(v[2][i])} : i \in 1..Len(v[2])}
+   THEN UNION {{<<<<IdxStep(i)>> \o q[1], q[2]>> : q \in Positions(v[2][i])} : i \in 1..Len(v[2])}
    ELSE {})
-
-FieldOf(v, k) == v[2][CHOOSE i \in 1..Len(v[2]) : v[2][i][1] = k][2]
-RECURSIVE At(_, _)
-At(v, pos) ==
-  IF pos = <<>> THEN v
-  ELSE IF IsKey(pos[1]) THEN At(FieldOf(v, pos[1][2]), Tail(pos))
-  ELSE At(v[2][pos[1][3]], Tail(pos))
 
 \* the keys on a position; an index step directly after an index step stands for the key ""
 RECURSIVE TPath(_)
@@ -113,27 +107,26 @@ Kept(in, tp) ==
 \* ---------------------------------------------------------------------------------------------
 \* what the document denotes (before filtering)
 Expected(in) ==
-  LET data == in.t
-      P == Positions(data)
-      IsItem(pos) == IF pos = <<>> THEN ~IsArr(data)
-                     ELSE IsIdx(Last(pos)) \/ IsObj(At(data, pos))
-      Items == {pos \in P : IsItem(pos)}
-      Row(pos) == 1 + Cardinality({q \in Items : TPath(q) = TPath(pos) /\ Before(q, pos)})
+  LET PV == Positions(in.t)                   \* x[1] = position, x[2] = value
       UnderKey(pos) == pos # <<>> /\ IsKey(Last(pos))
+      IsItem(x) == IF x[1] = <<>> THEN ~IsArr(x[2]) ELSE IsIdx(Last(x[1])) \/ IsObj(x[2])
+      \* items with their table path, then with their row number: <<position, table path, row>>
+      ItemTp == {<<x[1], TPath(x[1])>> : x \in {y \in PV : IsItem(y)}}
+      Items == {<<x[1], x[2], 1 + Cardinality({y \in ItemTp : y[2] = x[2] /\ Before(y[1], x[1])})>> : x \in ItemTp}
+      Item(pos) == CHOOSE x \in Items : x[1] = pos
       \* scalars: owner item and column
-      Owner(pos) == IF UnderKey(pos) THEN Front(pos) ELSE pos
+      Owner(pos) == Item(IF UnderKey(pos) THEN Front(pos) ELSE pos)
       ColOf(pos) == IF UnderKey(pos) THEN Last(pos)[2] ELSE ""
       \* array elements: the item that owns the array
-      Elems == {pos \in P : Len(pos) >= 2 /\ IsIdx(Last(pos))}
-      Parent(pos) == IF IsIdx(pos[Len(pos) - 1]) THEN Front(pos) ELSE SubSeq(pos, 1, Len(pos) - 2)
-  IN [ rows |-> {[tp |-> TPath(pos), row |-> Row(pos)] : pos \in Items},
-       cells |-> {[tp |-> TPath(Owner(pos)), row |-> Row(Owner(pos)), col |-> ColOf(pos),
-                   val |-> At(data, pos), ref |-> FALSE] : pos \in {q \in P : IsScalar(At(data, q))}}
+      Parent(pos) == Item(IF IsIdx(pos[Len(pos) - 1]) THEN Front(pos) ELSE SubSeq(pos, 1, Len(pos) - 2))
+  IN [ rows |-> {[tp |-> x[2], row |-> x[3]] : x \in Items},
+       cells |-> {[tp |-> Owner(x[1])[2], row |-> Owner(x[1])[3], col |-> ColOf(x[1]), val |-> x[2], ref |-> FALSE] :
+                    x \in {y \in PV : IsScalar(y[2])}}
                  \cup
-                 {[tp |-> TPath(Front(pos)), row |-> Row(Front(pos)), col |-> Last(pos)[2],
-                   val |-> Num(Row(pos)), ref |-> TRUE] : pos \in {q \in P : UnderKey(q) /\ IsObj(At(data, q))}},
-       backs |-> {[tp |-> TPath(pos), row |-> Row(pos), ptp |-> TPath(Parent(pos)),
-                   val |-> Num(Row(Parent(pos)))] : pos \in Elems} ]
+                 {[tp |-> Item(Front(x[1]))[2], row |-> Item(Front(x[1]))[3], col |-> Last(x[1])[2],
+                   val |-> Num(x[3]), ref |-> TRUE] : x \in {y \in Items : UnderKey(y[1])}},
+       backs |-> {[tp |-> x[2], row |-> x[3], ptp |-> Parent(x[1])[2], val |-> Num(Parent(x[1])[3])] :
+                    x \in {y \in Items : Len(y[1]) >= 2 /\ IsIdx(Last(y[1]))}} ]
 
 CellKept(in, e) == Kept(in, e.tp) /\ Kept(in, Append(e.tp, e.col))
 BackKept(in, b) == Kept(in, b.tp) /\ Kept(in, b.ptp)
